@@ -105,11 +105,43 @@ def materialise(w, d, kinds):
         w.write("d/.names", _text(d["lf"]["lines"]))
     if d["cap"]["has"]:
         w.write("d/.cap/" + d["cap"]["f"], _text(d["cap"]["lines"]))
+    faults = {}
     for s in d["side"]:
-        if s["f"] not in kind:
+        p = side_path(s, kind)
+        if p is None:
             continue
-        rel = "d/%s/.abstract" % s["f"] if kind[s["f"]] == "dir" else "d/%s.abstract" % s["f"]
-        w.write(rel, _text(s["text"]))
+        if s["kind"] == "dir":                      # a directory named like the side-car
+            w.mkdir(p)
+        else:
+            w.write(p, _text(s["text"]))
+            if s["kind"] != "text":                 # a regular file whose open() fails with this errno
+                faults[w.path(p)] = s["kind"]
+    return faults
+
+
+def side_path(s, kind):
+    if s["f"] == ".":
+        return "d/" + s["ext"]
+    if s["f"] not in kind:
+        return None
+    return "d/%s/%s" % (s["f"], s["ext"]) if kind[s["f"]] == "dir" else "d/%s%s" % (s["f"], s["ext"])
+
+
+class _OpenFaults:
+    """Substituted open() (envsub): opening one of the given paths for reading fails with the errno named."""
+
+    def __init__(self, faults):
+        self.faults, self.fired, self.active = faults, 0, False
+
+    def __call__(self, path, mode):
+        if not self.active or "r" not in mode and mode not in ("", None):
+            return None
+        e = self.faults.get(path)
+        if e is None:
+            return None
+        import errno
+        self.fired += 1
+        return OSError(getattr(errno, e), os.strerror(getattr(errno, e)), path)
 
 
 # ---- alpha: Gopher menu -> entries -------------------------------------------------------------------
@@ -137,14 +169,23 @@ def lex_menu(out: bytes):
 def run_case(job):
     d, kinds = job
     w = _world(d["mode"])
-    materialise(w, d, kinds)
-    r = w.request(b"/d\r\n")
+    faults = materialise(w, d, kinds)
+    from harness import envsub
+    hook = _OpenFaults(faults)
+    envsub.ENV.open_hook = hook if faults else None
+    hook.active = True
+    try:
+        r = w.request(b"/d\r\n")
+    finally:
+        hook.active = False
+        envsub.ENV.open_hook = None
     import pygopherd.handlers.UMN as umn
     wf, head, entries = lex_menu(r.out)
     ok = wf and r.escaped is None and not any("EXCEPTION" in l for l in r.log)
     ev = {"ev": "listing", "ok": ok, "out": entries, "head": head}
     extra = {"raw": r.out[:800].decode("latin-1"), "log": r.log[-3:], "escaped": r.escaped,
-             "extstrip_in_force": umn.extstrip, "handler": [l for l in r.log if "Handler]" in l][:1]}
+             "extstrip_in_force": umn.extstrip, "handler": [l for l in r.log if "Handler]" in l][:1],
+             "faults_wanted": len(faults), "faults_fired": hook.fired}
     return ev, extra
 
 
@@ -157,13 +198,16 @@ def _dir_for_trace(d):
     return {"sel": d["sel"], "files": list(d["files"]), "mode": d["mode"],
             "lf": {"has": d["lf"]["has"], "lines": list(d["lf"]["lines"])},
             "cap": {"has": d["cap"]["has"], "f": d["cap"]["f"], "lines": list(d["cap"]["lines"])},
-            "side": [{"f": s["f"], "text": list(s["text"])} for s in d["side"]],
+            "side": [{"f": s["f"], "ext": s.get("ext", ".abstract"), "kind": s.get("kind", "text"), "text": list(s["text"])}
+                     for s in d["side"]],
             "srv": dict(d["srv"])}
 
 
 def case_key(d):
     return "mode=%s|files=%s|side=%s|names=%s|cap=%s" % (
-        d["mode"], ",".join(d["files"]), ",".join(s["f"] for s in d["side"]),
+        d["mode"], ",".join(d["files"]),
+        ",".join(s["f"] if (s["ext"], s["kind"]) == (".abstract", "text") else "%s%s=%s" % (s["f"], s["ext"], s["kind"])
+                 for s in d["side"]),
         "\\n".join(d["lf"]["lines"]) if d["lf"]["has"] else "-",
         (d["cap"]["f"] + ":" + "\\n".join(d["cap"]["lines"])) if d["cap"]["has"] else "-")
 
@@ -225,7 +269,8 @@ def selftest():
     one entry dropped / entries swapped is rejected by TraceC08, naming the clause."""
     d = {"sel": "/d", "files": ["a.txt", "b", "c.txt.gz"], "mode": "nonencoded",
          "lf": {"has": True, "lines": ["Name=Mid", "Path=/abs", "Host=+", "Port=+", "", "Path=./b", "Numb=1"]},
-         "cap": {"has": False, "f": "", "lines": []}, "side": [{"f": "a.txt", "text": ["side one"]}], "srv": dict(SERVER)}
+         "cap": {"has": False, "f": "", "lines": []}, "side": [{"f": "a.txt", "ext": ".abstract", "kind": "text", "text": ["side one"]},
+                                                                 {"f": "b", "ext": ".3d", "kind": "EACCES", "text": ["x"]}], "srv": dict(SERVER)}
     case = {"dir": d, "kinds": ["file", "dir", "file"], "cls": "none", "scope": True}
     global _W
     _init_worker()
@@ -292,6 +337,11 @@ def main(chk, replay=None):
                                       % (t["extra"]["extstrip_in_force"], t["case"]["dir"]["mode"]))
         if not any("UMNDirHandler" in h for h in t["extra"]["handler"]):
             raise core.MachineryError("C08: /d was not served by UMNDirHandler: %r" % (t["extra"],))
+    wanted = sum(1 for t in traces if t["extra"]["faults_wanted"])
+    unfired = [t["id"] for t in traces if t["extra"]["faults_wanted"] and not t["extra"]["faults_fired"]]
+    if not replay and (wanted == 0 or len(unfired) == wanted):       # the whole class would be vacuous
+        raise core.MachineryError("C08: injected side-car open() faults not exercised (cases with faults=%d, never fired=%r)"
+                                  % (wanted, unfired[:3]))
     # 3. code -> spec: TLC judges every lexed menu against the reference reading
     tv = validate(traces, timeout=TIMEOUTS[tier])
     for rj in tv["rejected"]:
@@ -343,7 +393,8 @@ def main(chk, replay=None):
                 "non-trivial = in-scope case whose lexed menu differs from the menu of the same bare directory"
                 % (handler_lists, n_scope, len(cases)),
         "samples": samples, "checker_cmd": res["cmd"] + " ; " + blk["cmd"] + " ; " + tv["cmd"],
-        "trace_states": tv["states"], "trace_chunks_retried": tv["retried"], "in_scope": n_scope, "input_classes": by_cls, "quirks_modelled": QUIRKS,
+        "trace_states": tv["states"], "trace_chunks_retried": tv["retried"], "in_scope": n_scope, "sidecar_open_faults_injected": sum(t["extra"]["faults_fired"] for t in traces),
+        "sidecar_fault_cases_never_fired": len(unfired), "input_classes": by_cls, "quirks_modelled": QUIRKS,
         "bindings": ["B2 every TLC-evaluated directory replayed on disk through World.request", "B3 TraceC08"],
     }
     return chk.finish(cov, [
